@@ -522,16 +522,72 @@ def replay_concrete(cfg, kind, values, decisions):
     K = cfg.get('K', 3)
     Pk = {k: _num(values, 'P%d' % k, 1.0 / K) for k in range(1, K + 1)}
     rho = _num(values, 'rho', 0.2)
-    if fam == 'final-cts':
-        its = cfg['its']
-        got = an.Attack_rate_cts_time(Pk, tau, gamma, number_its=its, rho=rho) if cfg['kind'] == 'rho' else None
-        if got is None:
-            return {'reproduced': False, 'why': 'numeric replay implemented for the rho form only'}
-        psihat = lambda x: sum(Pk[k] * (1 - rho) * x ** k for k in Pk)
-        psihatP = lambda x: sum(k * Pk[k] * (1 - rho) * x ** (k - 1) for k in Pk)
-        pS = psihatP(1) / sum(k * Pk[k] for k in Pk)
-        om = gamma / (gamma + tau)
-        for _ in range(its):
-            om = gamma / (gamma + tau) + tau * pS * psihatP(om) / (psihatP(1) * (gamma + tau))
-        return {'reproduced': abs(got - (1 - psihat(om))) > 1e-9, 'concrete_detail': {'got': got, 'reference': 1 - psihat(om)}}
+    p_ = _num(values, 'p', 0.4)
+    if fam in ('final-cts', 'final-discrete'):
+        worst = 0.0
+        detail = {}
+        for its in range(0, cfg['its'] + 1):
+            if cfg['kind'] == 'rho':
+                Sk0 = {k: 1 - rho for k in Pk}
+                kw = dict(rho=rho)
+                phiS0, phiR0 = None, 0.0
+            else:
+                Sk0 = {k: _num(values, 's%d' % k, 0.8 - 0.1 * k) for k in Pk}
+                phiS0, phiR0 = _num(values, 'phiS0', 0.6), _num(values, 'phiR0', 0.1)
+                kw = dict(Sk0=Sk0, phiS0=phiS0, phiR0=phiR0)
+            psihat = lambda x: sum(Pk[k] * Sk0[k] * x ** k for k in Pk)
+            psihatP = lambda x: sum(k * Pk[k] * Sk0[k] * x ** (k - 1) for k in Pk)
+            pS = phiS0 if phiS0 is not None else psihatP(1) / sum(k * Pk[k] for k in Pk)
+            if fam == 'final-cts':
+                got = an.Attack_rate_cts_time(Pk, tau, gamma, number_its=its, **kw)
+                om = gamma / (gamma + tau)
+                for _ in range(its):
+                    om = gamma / (gamma + tau) + tau * pS * psihatP(om) / (psihatP(1) * (gamma + tau)) + tau * phiR0 / (gamma + tau)
+                want = 1 - psihat(om)
+            else:
+                got = an.Attack_rate_discrete(Pk, p_, number_its=its, **kw)
+                th = 1.0
+                for _ in range(its):
+                    th = 1 - p_ + p_ * (phiR0 + pS * psihatP(th) / psihatP(1))
+                want = 1 - psihat(th)
+            if abs(got - want) > worst:
+                worst, detail = abs(got - want), {'iterations': its, 'got': got, 'reference': want}
+        return {'reproduced': worst > 1e-9, 'concrete_detail': detail, 'how': 'real function evaluated at the counterexample'}
+    if fam == 'final-graph':
+        G = graphs.make(cfg['graph'])
+        N = G.order()
+        deg = dict(G.degree())
+        ks = sorted(set(deg.values()))
+        Pk = {k: sum(1 for v in G if deg[v] == k) / N for k in ks}
+        if cfg['ic'] == 'rho':
+            kw = dict(rho=rho)
+            Sk0 = {k: 1 - rho for k in ks}
+            phiS0 = sum(k * Pk[k] * Sk0[k] for k in ks) / sum(k * Pk[k] for k in ks)
+            phiR0 = 0.0
+        else:
+            I0, R0 = [0], [N - 1]
+            kw = dict(initial_infecteds=I0, initial_recovereds=R0)
+            st_ = {v: ('I' if v in I0 else 'R' if v in R0 else 'S') for v in G}
+            Sk0 = {k: sum(1 for v in G if deg[v] == k and st_[v] == 'S') / sum(1 for v in G if deg[v] == k) for k in ks}
+            SX = sum(deg[v] for v in G if st_[v] == 'S')
+            phiS0 = sum(1 for u in G for v in G[u] if st_[u] == 'S' and st_[v] == 'S') / SX
+            phiR0 = sum(1 for u in G for v in G[u] if st_[u] == 'S' and st_[v] == 'R') / SX
+        psihat = lambda x: sum(Pk[k] * Sk0[k] * x ** k for k in ks)
+        psihatP = lambda x: sum(k * Pk[k] * Sk0[k] * x ** (k - 1) for k in ks)
+        worst, detail = 0.0, {}
+        for its in (0, 1, 2, 3):
+            try:
+                a = an.Attack_rate_cts_time_from_graph(G, tau, gamma, number_its=its, **kw)
+                b = an.Attack_rate_discrete_from_graph(G, p_, number_its=its, **kw)
+            except Exception as e:
+                return {'reproduced': True, 'concrete_detail': {'exception': repr(e)[:200]}}
+            om = gamma / (gamma + tau)
+            th = 1.0
+            for _ in range(its):
+                om = gamma / (gamma + tau) + tau * phiS0 * psihatP(om) / (psihatP(1) * (gamma + tau)) + tau * phiR0 / (gamma + tau)
+                th = 1 - p_ + p_ * (phiR0 + phiS0 * psihatP(th) / psihatP(1))
+            for nm, got, want in (('cts', a, 1 - psihat(om)), ('discrete', b, 1 - psihat(th))):
+                if abs(got - want) > worst:
+                    worst, detail = abs(got - want), {'which': nm, 'iterations': its, 'got': got, 'reference': want}
+        return {'reproduced': worst > 1e-9, 'concrete_detail': detail, 'how': 'real functions evaluated at the counterexample'}
     return {'reproduced': False, 'why': 'no numeric replay for %s' % fam}
